@@ -26,14 +26,14 @@ CHECK = {
         rule="one evaluation = one seeded run of the three-node network inside a synctest bubble: 1-12 overlapping payments Alice->Bob->Carol, Carol->Bob->Alice and "
              "direct (valid, hold settled/cancelled later, unknown hash, underpaying, fee 1 msat short, generous fee, expired invoice, final CLTV too soon; amounts around "
              "dust, min-HTLC and bandwidth limits), events = deliver the next message of a chosen (connection, direction) queue, tick, advance fake time, block, fee change; "
-             "faults (arms calm / cuts / restart / crash) = cut a connection with per-direction delivered prefixes and re-create both links from disk, restart Bob "
+             "faults (arms calm / cuts / restart / crash) = cut a connection with per-direction delivered prefixes and re-create both links from disk, cut a connection INSIDE one of Bob's database writes (link quit signalled right after the k-th write commits, before the writing call returns), restart Bob "
              "(new Switch and links on the same database), crash Bob before/after his k-th database write. After every event to quiescence the online causality rules are "
              "checked at the transport; at wind-down (faults off, links up, hold invoices resolved) the conservation equalities are checked. non-trivial = a payment "
              "completed (and, in fault arms, completed after a fault fired); distinct = distinct event-trace hash",
         states_measure="distinct (per-connection queue lengths, payments in flight, Bob's pending/open circuits, faults so far) tuples",
         expected_probes=["probe_forward_success", "probe_forward_failed_back", "probe_bob_settles_upstream", "probe_bob_fails_upstream", "probe_hold_settled",
                          "probe_hold_cancelled", "probe_cut_with_payments_inflight", "probe_bob_reboot_with_circuits", "probe_payment_completed_after_fault",
-                         "fault_cut", "fault_cut_lost_messages", "fault_restart_bob", "fault_crash_before_fired", "fault_crash_after_fired", "fault_fee_change"],
+                         "fault_cut", "fault_cut_inside_write", "probe_reboot_with_unacked_settlefail_only_pkg", "fault_cut_lost_messages", "fault_restart_bob", "fault_crash_before_fired", "fault_crash_after_fired", "fault_fee_change"],
         real_vs_stub=SWITCHSIM_STUB, assumptions=SWITCHSIM_ASSUME,
         simulated_time="fake clock of the synctest bubble; counter sim_time_ms is the simulated time covered",
         determinism="actor engine: seam-deterministic (every stimulus and fault is the tape's; the Go runtime orders a node's own goroutines between quiescent points); "
@@ -58,6 +58,6 @@ TEXT = {
                            "channel ends and agreement of both ends; Bob's holdings over both channels = start + exactly the fees of the successful forwards; Alice's and Carol's deltas "
                            "match. Exploration is the right level: the schedule/fault space is unbounded and the oracle is scenario independent.",
                 level_note="Trusted: synctest quiescence; mock onion (route in clear); the repo's in-memory invoice registry fixture. Goroutine order inside one node between two quiescent "
-                           "points is the runtime's (property C08 itself quantifies over 'goroutine scheduling as chosen by the runtime'). One genuine defect found by this engine was "
-                           "fixed (45889c1, regress/C08-fwdpkg-reprocess-index.json is replayed on every run)."),
+                           "points is the runtime's (property C08 itself quantifies over 'goroutine scheduling as chosen by the runtime'). Two genuine defects found by this engine were "
+                           "fixed (45889c1, 1312403; their minimised schedules under regress/ are replayed on every run), a third is recorded as known finding (ForwardPackets drops an add after CommitCircuits when the link quits; found by the cut-inside-write fault). Per-run knobs: batch size, ack-ticker interval (15 s / 1 s / 20 ms), fees, reserves, capacities."),
 }
